@@ -910,6 +910,23 @@ func (env *Env) elabCall(x *ECall) SV {
 				v := env.elab(x.Args[0])
 				env.vc.declFun("chr", "(declare-fun chr (Int) Str)\n(assert (forall ((c Int)) (! (and (= (slen (chr c)) 1) (=> (and (<= 0 c) (< c 256)) (= (sat (chr c) 0) c))) :pattern ((chr c)))))")
 				return SV{t: app("chr", v.t), sort: "Str", ty: types.Typ[types.String]}
+			case "sentcount", "sentat":
+				cv := env.elab(x.Args[0])
+				var et types.Type
+				if cv.ty != nil {
+					if ch, ok := cv.ty.Underlying().(*types.Chan); ok {
+						et = ch.Elem()
+					}
+				}
+				if et == nil {
+					return env.fail("%s: not a channel", x.Args[0].String())
+				}
+				snN, snAt := env.tr.sentVars(et)
+				if id.Name == "sentcount" {
+					return env.intSV(sel(env.tr.getState(env.st, snN), cv.t))
+				}
+				k := env.elab(x.Args[1])
+				return env.goSV(sel(sel(env.tr.getState(env.st, snAt), cv.t), k.t), et)
 			case "recvcount", "recvat":
 				// ghost history of a channel variable: recvcount(ch), recvat(ch, k)
 				cv := env.elab(x.Args[0])
